@@ -32,7 +32,7 @@ def record(behs, variants):
 
 
 def strip(trace):
-    return [{k: v for k, v in r.items() if k not in ('exc', 'model_res', 'obs', 'published_same')} for r in trace]
+    return [{k: v for k, v in r.items() if k not in ('exc', 'model_res', 'obs', 'published_same', 'sit')} for r in trace]
 
 
 def run_family(run, pid, num, variants, seed_offset=0):
